@@ -69,7 +69,7 @@ Proof.
   intros v tl st f off k n e d st' Htl (Hwf & Hc & Hl & Hg & Hp & Hp0) Hoff H o.
   unfold sf_read_n, sf_read_err. rewrite full_tail_eq. rewrite <- Hl.
   destruct (N.eqb_spec k 0) as [E|E].
-  - unfold read_at in H. destruct (Z.ltb_spec off 0); [lia|]. subst k. cbn in H.
+  - unfold read_at, read_at_try in H. destruct (Z.ltb_spec off 0); [lia|]. subst k. cbn in H.
     inversion H; subst.
     split; [lia|]. split.
     { cbn [N.eqb]. destruct (negb (fix16 v) && _); reflexivity. }
@@ -119,7 +119,7 @@ Proof.
   - (* ReadAt *)
     destruct (read_at v tl st off k) as [[[n e] d] st1] eqn:Hr. unfold mk in Hc. (injection Hc as Hc1 Hc2; subst c st').
     destruct (Z.ltb_spec off 0) as [Ho|Ho].
-    + unfold read_at in Hr. destruct (Z.ltb_spec off 0); [|lia]. (injection Hr as <- <- <- <-). (injection Hs as Hs1 Hs2; subst s f').
+    + unfold read_at, read_at_try in Hr. destruct (Z.ltb_spec off 0); [|lia]. (injection Hr as <- <- <- <-). (injection Hs as Hs1 Hs2; subst s f').
       unfold res_ok. cbn. rewrite andb_false_r. repeat (split; auto); try (intros; lia).
     + destruct (read_at_R v tl st f off k n e d st1 Htl HR Ho Hr) as (Hn & He & Hdl & Hdg & Hpos & HR1). (injection Hs as Hs1 Hs2; subst s f').
       rewrite Hn in Hdl, Hdg. rewrite Hn, He.
